@@ -65,7 +65,7 @@ func sharingSuite(r *Run) {
 				mu.Unlock()
 			}
 			mkResp := func() *Msg {
-				m := populateMsg(rng)
+				m := sharedMsg(rng)
 				mu.Lock()
 				handlerSent = append(handlerSent, m)
 				handlerSentSnap = append(handlerSentSnap, snapOf(m))
@@ -120,14 +120,14 @@ func sharingSuite(r *Run) {
 			var clientSent, clientGot []*Msg
 			var sentSnap []string
 			send := func() *Msg {
-				m := populateMsg(rng)
+				m := sharedMsg(rng)
 				clientSent = append(clientSent, m)
 				sentSnap = append(sentSnap, snapOf(m))
 				return m
 			}
 			// a pre-filled destination must be overwritten, never merged
 			prefilled := func() *Msg {
-				m := populateMsg(rng)
+				m := sharedMsg(rng)
 				m.Headers = map[string][]byte{"stale-key": []byte("stale")}
 				m.Trailers = map[string][]byte{"stale-key2": []byte("stale")}
 				m.ErrorDetails = append(m.ErrorDetails, nil)
@@ -315,4 +315,14 @@ func mutateMsg(m *Msg) {
 		}
 	}
 	m.DelayMillis++
+}
+
+
+// sharedMsg: mostly populated messages, sometimes one whose encoding is empty (every field at its default) —
+// a clone of nothing must still be a different object
+func sharedMsg(rng *Rng) *Msg {
+	if rng.Chance(25) {
+		return &Msg{}
+	}
+	return populateMsg(rng)
 }
